@@ -25,6 +25,9 @@ func (s *Server) serveStream(ctx context.Context, r io.Reader, w io.Writer, req 
 		}
 		emptySchema := arrow.NewSchema(nil, nil)
 		s.logIPCWriteErr("error-response", req.Method, writeErrorResponse(w, emptySchema, handlerErr, s.serverID, req.RequestID, s.debugErrors))
+		// Drain the client's input stream (it writes before reading) so the
+		// transport is clean for the next request.
+		drainInputStream(r)
 		return handlerErr, nil
 	}
 
